@@ -58,6 +58,8 @@ def main():
     seed = os.environ.get("VERIF_SEED", "1")
     check_tests = False
     skip_done = False
+    expect_pass = False
+    respath_override = None
     i = 0
     while i < len(args):
         if args[i] == "--tier":
@@ -72,6 +74,10 @@ def main():
             check_tests = True; i += 1
         elif args[i] == "--skip-done":
             skip_done = True; i += 1
+        elif args[i] == "--expect-pass":
+            expect_pass = True; i += 1
+        elif args[i] == "--results":
+            respath_override = args[i + 1]; i += 2
         else:
             i += 1
     muts = load_mutants(dirs)
@@ -79,7 +85,7 @@ def main():
         muts = [m for m in muts if only in m["name"]]
     base = "/tmp/vf-mut-%d" % os.getpid()
     results = {}
-    respath = os.path.join(VERIF, "selftest", "results.json")
+    respath = os.path.join(VERIF, "selftest", respath_override or "results.json")
     if os.path.exists(respath):
         try:
             results = json.load(open(respath))
@@ -121,7 +127,14 @@ def main():
                 if r.returncode not in (0, 1):
                     detail = "rc=%d %s" % (r.returncode, r.stdout[-300:])
                 res[pid] = dict(caught=caught, sig=detail, wall=round(time.time() - t0, 1))
-                print("%-40s %s %-6s %s (%.0fs)" % (m["name"], pid, "CAUGHT" if caught else "MISSED", detail, time.time() - t0), flush=True)
+                if expect_pass:
+                    alarm = r.returncode != 0 or "VIOLATION" in r.stdout
+                    res[pid]["alarm"] = alarm
+                    print("%-40s %s %-6s %s (%.0fs)" % (m["name"], pid, "FALSE-ALARM" if alarm else "quiet", detail, time.time() - t0), flush=True)
+                    if alarm:
+                        print(r.stdout[-1200:], flush=True)
+                else:
+                    print("%-40s %s %-6s %s (%.0fs)" % (m["name"], pid, "CAUGHT" if caught else "MISSED", detail, time.time() - t0), flush=True)
             prev = results.get(m["name"], {}) if isinstance(results.get(m["name"]), dict) else {}
             merged = dict(prev.get("results", {})); merged.update(res)
             results[m["name"]] = dict(what=m["what"], tier=tier, results=merged, tests_pass=tests_pass if tests_pass is not None else prev.get("tests_pass"))
